@@ -178,7 +178,9 @@ class C19(Prop):
                 txt = "junk"
             junk.append([st.fault.choice(ss), txt])
         return {"base": base, "junk": junk, "channel": draw_read_channel(g, ascii_only=True, allow_cr=False),
-                "policy": Policy.draw(st.io).to_json()}
+                "policy": Policy.draw(st.io).to_json(),
+                "rkw": g.choice([{}, {}, {"mnemonic_case": "lower"}, {"mnemonic_case": "preserve"}, {"engine": "normal"}, {"ignore_data": True},
+                                 {"null_policy": "none"}])}
 
     def run(self, sc):
         import lasio
@@ -204,7 +206,8 @@ class C19(Prop):
         fs = SimFS(policy=Policy.from_json(sc["policy"]))
         with fs:
             try:
-                base = read_via(fs, base_text, sc["channel"], {}, tag="c19")
+                rkw = dict(sc.get("rkw") or {})
+                base = read_via(fs, base_text, sc["channel"], dict(rkw), tag="c19")
             except Exception as e:
                 res.skipped = "base not readable: %s" % type(e).__name__
                 return res
@@ -213,7 +216,7 @@ class C19(Prop):
             res.count("junk-lines", len(junk))
             # with the flag: never an exception, no interference
             try:
-                tol = read_via(fs, bad_text, sc["channel"], {"ignore_header_errors": True}, tag="c19")
+                tol = read_via(fs, bad_text, sc["channel"], dict(rkw, ignore_header_errors=True), tag="c19")
             except Exception as e:
                 res.violate("C19.raised", "ignore_header_errors=True but read raised %s: %s | junk=%r" % (
                     type(e).__name__, str(e).strip().splitlines()[-1][:200] if str(e).strip() else "", [t[:60] for _, t in junk]))
@@ -244,7 +247,7 @@ class C19(Prop):
             # without the flag: success or LASHeaderError naming the line
             if not res.violations:
                 try:
-                    read_via(fs, bad_text, sc["channel"], {}, tag="c19")
+                    read_via(fs, bad_text, sc["channel"], dict(rkw), tag="c19")
                     res.count("strict-read:ok")
                 except lasio.exceptions.LASHeaderError as e:
                     res.count("strict-read:LASHeaderError")
@@ -273,6 +276,10 @@ class C19(Prop):
         if sc["policy"] != Policy().to_json():
             d = copy.deepcopy(sc)
             d["policy"] = Policy().to_json()
+            yield d
+        if sc.get("rkw"):
+            d = copy.deepcopy(sc)
+            d["rkw"] = {}
             yield d
         for i, (k, t) in enumerate(sc["junk"]):
             if len(t) > 3:
